@@ -489,6 +489,40 @@ theorem unify_least (f : Nat) (E : List Eqn) (S' : List Bind) (h : unify f E [] 
   · intro ρ hρ
     exact hl.2 ρ ((hg ρ).1 ⟨hρ, by simp [SolS]⟩)
 
+
+theorem Le.antisymm : ∀ {a b : Ty}, Le a b → Le b a → a = b := by
+  intro a b h1
+  induction h1 with
+  | one t => intro h2; cases h2; rfl
+  | sum _ _ iha ihb => intro h2; cases h2 with | sum ha hb => rw [iha ha, ihb hb]
+  | prod _ _ iha ihb => intro h2; cases h2 with | prod ha hb => rw [iha ha, ihb hb]
+
+/-- **C08/C12**: dropping constraints (pruning a branch) can only shrink the inferred types -/
+theorem least_mono {f f' : Nat} {E E' : List Eqn} {S S' : List Bind}
+    (hsub : ∀ e ∈ E', e ∈ E) (h : unify f E [] = .ok S) (h' : unify f' E' [] = .ok S') :
+    ∀ x, Le (closeUnit S' x) (closeUnit S x) := by
+  have hs := (unify_least f E S h).1
+  exact (unify_least f' E' S' h').2 (closeUnit S) (fun e he => hs e (hsub e he))
+
+/-- **C04 order independence**: the inferred types depend only on the *set* of constraints, not on
+the order (or multiplicity) in which the nodes were constructed, nor on the fuel used -/
+theorem least_order_independent {f f' : Nat} {E E' : List Eqn} {S S' : List Bind}
+    (hsame : ∀ e, e ∈ E ↔ e ∈ E') (h : unify f E [] = .ok S) (h' : unify f' E' [] = .ok S') :
+    ∀ x, closeUnit S x = closeUnit S' x := by
+  intro x
+  exact Le.antisymm (least_mono (fun e he => (hsame e).1 he) h' h x)
+    (least_mono (fun e he => (hsame e).2 he) h h' x)
+
+/-- and rejection is order independent too: a clash/occurs result for one order excludes success for any other -/
+theorem error_order_independent {f f' : Nat} {E E' : List Eqn} {S' : List Bind}
+    (hsame : ∀ e, e ∈ E ↔ e ∈ E') (h : unify f E [] = .clash ∨ unify f E [] = .occurs)
+    (h' : unify f' E' [] = .ok S') : False := by
+  have hs := (unify_least f' E' S' h').1
+  have hg := unify_good f E []
+  have hden : Den (closeUnit S') E [] := ⟨fun e he => hs e ((hsame e).1 he), by simp [SolS]⟩
+  rcases h with h | h <;> (rw [h] at hg; exact hg _ hden)
+
 #print axioms unify_good
 #print axioms unify_least
+#print axioms least_order_independent
 end Inf
